@@ -33,9 +33,25 @@ pub struct PendPlan {
     pub pends_read_dir: AtomicU64,
     pub pends_metadata: AtomicU64,
     pub pends_stream_items: AtomicU64,
+    /// fault injection (C20 on the async port): trait calls are counted while armed, and the
+    /// call with index `fail_at` fails with an I/O error after its Pending returns
+    pub armed: std::sync::atomic::AtomicBool,
+    pub calls: AtomicU64,
+    pub fail_at: std::sync::atomic::AtomicI64,
+    pub fired: std::sync::Mutex<Option<String>>,
 }
 
 impl PendPlan {
+    pub fn arm(&self, fail_at: i64) {
+        self.calls.store(0, Ordering::SeqCst);
+        self.fail_at.store(fail_at, Ordering::SeqCst);
+        *self.fired.lock().unwrap() = None;
+        self.armed.store(true, Ordering::SeqCst);
+    }
+    pub fn disarm(&self) -> u64 {
+        self.armed.store(false, Ordering::SeqCst);
+        self.calls.load(Ordering::SeqCst)
+    }
     pub fn new(seed: u64) -> Arc<PendPlan> {
         Arc::new(PendPlan {
             seed,
@@ -44,6 +60,10 @@ impl PendPlan {
             pends_read_dir: AtomicU64::new(0),
             pends_metadata: AtomicU64::new(0),
             pends_stream_items: AtomicU64::new(0),
+            armed: std::sync::atomic::AtomicBool::new(false),
+            calls: AtomicU64::new(0),
+            fail_at: std::sync::atomic::AtomicI64::new(-1),
+            fired: std::sync::Mutex::new(None),
         })
     }
     /// how many times the next await point returns Pending (0..=3)
@@ -100,6 +120,18 @@ impl PendFS {
         }
         PendN { left: n }.await
     }
+    /// Pending per the plan, then possibly the injected fault
+    async fn gate(&self, method: &'static str, path: &str) -> VfsResult<()> {
+        self.pend(method).await;
+        if self.plan.armed.load(Ordering::SeqCst) {
+            let c = self.plan.calls.fetch_add(1, Ordering::SeqCst) as i64;
+            if c == self.plan.fail_at.load(Ordering::SeqCst) {
+                *self.plan.fired.lock().unwrap() = Some(format!("{}('{}')", method, path));
+                return Err(vfs::VfsError::from(std::io::Error::new(std::io::ErrorKind::Other, "injected fault")));
+            }
+        }
+        Ok(())
+    }
 }
 
 struct PendStream {
@@ -139,28 +171,28 @@ impl Stream for PendStream {
 #[async_trait]
 impl AsyncFileSystem for PendFS {
     async fn read_dir(&self, path: &str) -> VfsResult<Box<dyn Unpin + Stream<Item = String> + Send>> {
-        self.pend("read_dir").await;
+        self.gate("read_dir", path).await?;
         let inner = self.inner.read_dir(path).await?;
         Ok(Box::new(PendStream { inner, plan: self.plan.clone(), left: None }))
     }
     async fn create_dir(&self, path: &str) -> VfsResult<()> {
-        self.pend("create_dir").await;
+        self.gate("create_dir", path).await?;
         self.inner.create_dir(path).await
     }
     async fn open_file(&self, path: &str) -> VfsResult<Box<dyn SeekAndRead + Send + Unpin>> {
-        self.pend("open_file").await;
+        self.gate("open_file", path).await?;
         self.inner.open_file(path).await
     }
     async fn create_file(&self, path: &str) -> VfsResult<Box<dyn Write + Send + Unpin>> {
-        self.pend("create_file").await;
+        self.gate("create_file", path).await?;
         self.inner.create_file(path).await
     }
     async fn append_file(&self, path: &str) -> VfsResult<Box<dyn Write + Send + Unpin>> {
-        self.pend("append_file").await;
+        self.gate("append_file", path).await?;
         self.inner.append_file(path).await
     }
     async fn metadata(&self, path: &str) -> VfsResult<VfsMetadata> {
-        self.pend("metadata").await;
+        self.gate("metadata", path).await?;
         self.inner.metadata(path).await
     }
     async fn set_creation_time(&self, path: &str, time: SystemTime) -> VfsResult<()> {
@@ -173,27 +205,27 @@ impl AsyncFileSystem for PendFS {
         self.inner.set_access_time(path, time).await
     }
     async fn exists(&self, path: &str) -> VfsResult<bool> {
-        self.pend("exists").await;
+        self.gate("exists", path).await?;
         self.inner.exists(path).await
     }
     async fn remove_file(&self, path: &str) -> VfsResult<()> {
-        self.pend("remove_file").await;
+        self.gate("remove_file", path).await?;
         self.inner.remove_file(path).await
     }
     async fn remove_dir(&self, path: &str) -> VfsResult<()> {
-        self.pend("remove_dir").await;
+        self.gate("remove_dir", path).await?;
         self.inner.remove_dir(path).await
     }
     async fn copy_file(&self, src: &str, dest: &str) -> VfsResult<()> {
-        self.pend("copy_file").await;
+        self.gate("copy_file", src).await?;
         self.inner.copy_file(src, dest).await
     }
     async fn move_file(&self, src: &str, dest: &str) -> VfsResult<()> {
-        self.pend("move_file").await;
+        self.gate("move_file", src).await?;
         self.inner.move_file(src, dest).await
     }
     async fn move_dir(&self, src: &str, dest: &str) -> VfsResult<()> {
-        self.pend("move_dir").await;
+        self.gate("move_dir", src).await?;
         self.inner.move_dir(src, dest).await
     }
 }
@@ -678,23 +710,29 @@ pub async fn arun_read_script(
 pub fn with_stdout_silenced<T>(f: impl FnOnce() -> T) -> T {
     use std::io::Write as _;
     use std::os::unix::io::AsRawFd;
+    /// restores fd 1 also when `f` unwinds (a panic must not swallow the VIOLATION line)
+    struct Restore(i32);
+    impl Drop for Restore {
+        fn drop(&mut self) {
+            let _ = std::io::stdout().flush();
+            if self.0 >= 0 {
+                unsafe {
+                    libc::dup2(self.0, 1);
+                    libc::close(self.0);
+                }
+            }
+        }
+    }
     let _ = std::io::stdout().flush();
     let devnull = std::fs::OpenOptions::new().write(true).open("/dev/null").ok();
     let saved = unsafe { libc::dup(1) };
+    let _restore = Restore(saved);
     if let Some(dn) = &devnull {
         unsafe {
             libc::dup2(dn.as_raw_fd(), 1);
         }
     }
-    let r = f();
-    let _ = std::io::stdout().flush();
-    if saved >= 0 {
-        unsafe {
-            libc::dup2(saved, 1);
-            libc::close(saved);
-        }
-    }
-    r
+    f()
 }
 
 #[allow(dead_code)]
